@@ -29,7 +29,7 @@ Proof. reflexivity. Qed.
 Local Open Scope Z_scope.
 
 Lemma consts_rel :
-  Consts.progress_bar_min <= Consts.progress_bar_min_length - blen Consts.progress_left_sep /\
+  blen Consts.progress_left_sep <= Consts.progress_bar_min_length /\
   2 <= Consts.progress_bar_brackets <= Consts.progress_bar_min /\
   0 <= blen Consts.progress_left_sep /\
   Z.of_nat (length Consts.progress_ellipsis_dots) <= Consts.progress_ellipsis_added /\
@@ -482,8 +482,14 @@ Proof.
   - (* no bar *)
     specialize (Hshort Hs'). subst bar.
     destruct Hexit as [Hfit|[E1 [E2 E3]]].
-    + exfalso. unfold fits in Hfit. apply Z.leb_le in Hfit. unfold bar_length in Hs'.
-      destruct (0 <? l_len l) eqn:E; [apply Z.ltb_lt in E | apply Z.ltb_ge in E]; lia.
+    + (* a check passed but the bar is below its minimum: name, separator and fields alone *)
+      unfold fits in Hfit. apply Z.leb_le in Hfit.
+      pose proof (Hdw_trim ((if 0 <? l_len l then l_left l ++ Consts.progress_left_sep else l_left l) ++ [] ++ l_right l)) as T1.
+      pose proof (dw_app3 (if 0 <? l_len l then l_left l ++ Consts.progress_left_sep else l_left l) [] (l_right l)) as T2.
+      rewrite dw_nil in T2.
+      destruct (0 <? l_len l) eqn:E; [apply Z.ltb_lt in E | apply Z.ltb_ge in E].
+      * pose proof (Hdw_app (l_left l) Consts.progress_left_sep). lia.
+      * lia.
     + rewrite E1, E2, E3. rewrite Z.ltb_irrefl. cbn [app].
       rewrite trim_space_lead_space. pose proof (Hdw_trim pct). pose proof (dw_ascii _ Hp). lia.
   - (* bar of exactly the remaining width *)
